@@ -90,12 +90,19 @@ def gen_prog(r, sid, tier):
                 tog.append(("env", r.choice(names), r.choice(vals)))
         pos = r.below(len(ops) + 1)
         ops[pos:pos] = tog
+    t_force = None
+    if r.chance(1, 6):
+        # detached() before clone(): the clone is as detached as the original (observable on the Popen of popen())
+        pos = r.below(len(ops) + 1)
+        ops.insert(pos, ("detached",))
+        ops.insert(pos + 1 + r.below(len(ops) - pos), ("clone",))
+        t_force = "popen"
     if r.chance(1, 4):
         # input data on a handle that is then cloned: both handles must carry it
         pos = r.below(len(ops) + 1)
         ops.insert(pos, ("stdin", "data", X.rand_bytes(r, r.choice([1, 7, 300]), 0, 255)))
         ops.insert(pos + 1 + r.below(len(ops) - pos), ("clone",))
-    return {"id": sid, "shell": X.gen_arg(r) if shell else None, "ops": ops, "t1": r.choice(TERMS), "t2": r.choice(TERMS)}
+    return {"id": sid, "shell": X.gen_arg(r) if shell else None, "ops": ops, "t1": t_force or r.choice(TERMS), "t2": t_force or r.choice(TERMS)}
 
 
 def prog_to_json(p):
